@@ -314,7 +314,17 @@ matchInners:
 		if polyISortedByOuterAreaDesc == nil {
 			polyISortedByOuterAreaDesc = sortPolyIdxsByOuterAreaDesc(polygons)
 		}
-		smallestMatchingPolyI := mapslicehelp.LastMatch(polyISortedByOuterAreaDesc, mapslicehelp.OrderedMapKeys(containsPerPolyI))
+		// prefer the outer rings that contain (or touch) all vertices of the inner ring, not just some of them
+		candidatePolyIs := make([]int, 0, containsPerPolyI.Len())
+		for p := containsPerPolyI.Oldest(); p != nil; p = p.Next() {
+			if p.Value == uint(len(innerRing)) {
+				candidatePolyIs = append(candidatePolyIs, p.Key)
+			}
+		}
+		if len(candidatePolyIs) == 0 {
+			candidatePolyIs = mapslicehelp.OrderedMapKeys(containsPerPolyI)
+		}
+		smallestMatchingPolyI := mapslicehelp.LastMatch(polyISortedByOuterAreaDesc, candidatePolyIs)
 		polygons[smallestMatchingPolyI] = append(polygons[smallestMatchingPolyI], innerRing)
 	}
 	for i := range innersTurnedOuters {
